@@ -80,3 +80,19 @@ Definition delete_table_ranges (t : bytes) : list (bytes * bytes) :=
    >= Min (> Min with the LOpen bit): the same keys as the forward iteration, in descending order *)
 Definition range_iter_rev (rtype : N) (lo hi : bytes) (keys : list bytes) : list bytes :=
   rev (range_iter rtype lo hi keys).
+
+(* ---------- partial range deletes: engine WriteBatch.DeleteRange and rockredis/t_list.go ltrim2 ---------- *)
+
+(* WriteBatch.DeleteRange(start, end) removes the keys of [start, end): what is left of a key space *)
+Definition delete_range (lo hi : bytes) (keys : list bytes) : list bytes :=
+  filter (fun k => negb (in_range lo hi k)) keys.
+
+(* ltrim2 (LTRIM start stop on a list whose meta says head sequence [head] and length [llen]; start, stop
+   already normalised, 0 <= start <= stop < llen): when more than RangeDeleteNum elements go at one end they
+   are removed by one DeleteRange over the sequence keys
+     head end:  [ key(head), key(head + start) )              -- the new head key(head + start) stays
+     tail end:  [ key(head + stop + 1), key(head + llen) )    -- the old tail key(head + llen - 1) goes *)
+Definition ltrim_head_range (t k : bytes) (head start : Z) : bytes * bytes :=
+  (l_encode_list_key t k head, l_encode_list_key t k (head + start)).
+Definition ltrim_tail_range (t k : bytes) (head stop llen : Z) : bytes * bytes :=
+  (l_encode_list_key t k (head + stop + 1), l_encode_list_key t k (head + llen)).
